@@ -1,0 +1,5 @@
+//go:build !verif
+
+package kv
+
+func verifPermute(roots []string) []string { return roots }
